@@ -81,7 +81,9 @@ def llm_fn_for(path, version):
 # "param": ONE shipped rail flow configured twice with different parameters (content safety check input/output $model=...)
 # "libjb": Colang 2.x, input rail = the shipped `jailbreak detection heuristics` flow (its action replaced by a stub)
 RAILS = {"single": (("in1",), ("out1",)), "double": (("in1", "in2"), ("out1", "out2")), "param": (("in1", "in2"), ("out1", "out2")),
-         "libjb": (("in1",), ("out1",))}
+         "libjb": (("in1",), ("out1",)),
+         # "libself": Colang 2.x, the shipped `self check input` / `self check output` rails (their actions replaced by stubs)
+         "libself": (("in1",), ("out1",))}
 _RAILSET = ["single"]
 _PATH = ["free"]
 
@@ -89,7 +91,7 @@ _PATH = ["free"]
 def build(version, dialog, exceptions):
     ins, outs = RAILS[_RAILSET[0]]
     if version == "2.x":
-        return rw.v2_world(in_order=ins, out_order=outs, dialog=False, exceptions=exceptions, library=("jailbreak" if _RAILSET[0] == "libjb" else False), main={"retry": V2_MAIN_RETRY, "say-result": V2_MAIN_SAY_RESULT}.get(_PATH[0], V2_MAIN_LOOKUP))
+        return rw.v2_world(in_order=ins, out_order=outs, dialog=False, exceptions=exceptions, library=("jailbreak" if _RAILSET[0] == "libjb" else (True if _RAILSET[0] == "libself" else False)), main={"retry": V2_MAIN_RETRY, "say-result": V2_MAIN_SAY_RESULT}.get(_PATH[0], V2_MAIN_LOOKUP))
     return rw.v1_world(in_order=ins, out_order=outs, dialog=dialog, exceptions=exceptions, param_rails=("both" if _RAILSET[0] == "param" else False))
 
 
@@ -362,12 +364,19 @@ def explore_extra(task):
         for site in ("in1", "out1"):
             world = build(version, False, False)
 
+            holder = {}
+
             class FailingInit:
+                """the constructor fails at the first attempt only (a backend that is down for a moment)"""
+                attempts = 0
+
                 def __init__(self):
-                    raise RuntimeError("cannot construct the rail action (e.g. missing credentials)")
+                    type(self).attempts += 1
+                    if type(self).attempts == 1:
+                        raise RuntimeError("cannot construct the rail action (e.g. missing credentials)")
 
                 async def run(self, rail=None, text=None):
-                    return True
+                    return holder["world"]._rail_sync(rail, text)
 
             name = "verif_rail" if version == "1.0" else "VerifRailAction"
             calls = {"n": 0}
@@ -409,6 +418,25 @@ def explore_extra(task):
                 res["viol"].append((f"unchecked-llm-text-returned:class-action-constructor:{'v2' if version == '2.x' else 'v1'}:{site}", f"reply {turn.text!r}", info))
             else:
                 res["faulted_turns_fail_closed"] += 1
+            # the next turn (the constructor works now): processed with all rails active, the rail that failed before included
+            holder["world"] = w2
+            vtag = "v2" if version == "2.x" else "v1"
+            try:
+                if version == "1.0":
+                    reply = turn.reply if isinstance(turn.reply, dict) else {"role": "assistant", "content": str(turn.text)}
+                    t2 = rw.run_turn(w2, [{"role": "user", "content": "U1 hello"}, reply, {"role": "user", "content": "U2 hello again"}], {"in1": "A", "out1": "A"}, fn)
+                else:
+                    t2 = rw.run_turn(w2, [{"role": "user", "content": "U2 hello again"}], {"in1": "A", "out1": "A"}, llm_fn_for("free", "2.x"), state=turn.reply.state)
+            except Exception as e:
+                res["viol"].append((f"harness:class-action:next-turn:{version}:{site}", repr(e), info))
+                continue
+            res["next_turns_checked"] += 1
+            rails_seen = [a.get("rail") for a in t2.actions if a.get("rail")]
+            if t2.exc is not None:
+                res["viol"].append((f"generate-raised:next-turn-after-class-action-constructor:{vtag}", f"{t2.exc!r}", info))
+            elif rails_seen != ["in1", "out1"]:
+                res["viol"].append((f"next-turn-rails-not-run:class-action-constructor:{vtag}:{site}",
+                                    f"turn after the failed construction of the {site} rail action: rails invoked {rails_seen}, expected ['in1', 'out1']; reply {t2.text!r}", info))
     # ---- (2) event-started turn (Colang 1.0)
     colang = """
 define flow on silence
@@ -463,6 +491,7 @@ def tasks(tier):
         out.append(("2.x", False, exc, "retry", turns, False, ("raise",)))
         out.append(("2.x", False, exc, "say-result", turns, False, ("raise", "none")))
         out.append(("2.x", False, exc, "free", turns, False, ("raise", "none"), "libjb"))
+        out.append(("2.x", False, exc, "free", turns, False, ("raise", "none"), "libself"))
         # one shipped rail flow configured twice with different parameters (Colang 1.0)
         out.append(("1.0", False, exc, "general", turns, tier == "thorough", ("raise",), "param"))
         if tier == "thorough":
